@@ -13,6 +13,8 @@ import os
 
 from vf import build, recs, tlc
 
+_PID = "-%d" % os.getpid()
+
 
 # ---------------------------------------------------------------------------------------------------------------
 # worlds: structured description -> CSV text for the real MessageMap  +  JSON for the P monitor
@@ -261,7 +263,7 @@ def _tlc_graph(ctx, graph, worldsjson, tag, target=None, cont=True):
     env = {"VF_GRAPH": graph, "VF_WORLDS": worldsjson}
     if target:
         env["VF_TARGET"] = target
-    return tlc.run("C13Graph", "C13Graph.cfg", env=env, workers=4, timeout=900, heap="6g", cont=cont, tag=tag)
+    return tlc.run("C13Graph", "C13Graph.cfg", env=env, workers=4, timeout=900, heap="6g", cont=cont, tag=tag + _PID)
 
 
 def _bad_sigs(res):
@@ -288,13 +290,13 @@ def _trace_inputs(res):
 
 def run(ctx):
     ctx.level = "model_checking"
-    wd = recs.workdir("C13")
+    wd = recs.workdir("C13")   # per process, removed at exit
     exe = build.build("c13_cond", ["c13_cond.cpp"], ["ebus", "utils_noclock"])
     notes = {}
 
     # 1. S => P on the code-shaped model (no code involved; cannot change with /repo) ------------------------
-    mc_pinned = tlc.run("Condition", "MC_Condition.cfg", workers=4, timeout=300, tag="C13-mc-pinned")
-    mc_fixed = tlc.run("Condition", "MC_Condition_fixed.cfg", workers=4, timeout=300, tag="C13-mc-fixed")
+    mc_pinned = tlc.run("Condition", "MC_Condition.cfg", workers=4, timeout=300, tag="C13-mc-pinned" + _PID)
+    mc_fixed = tlc.run("Condition", "MC_Condition_fixed.cfg", workers=4, timeout=300, tag="C13-mc-fixed" + _PID)
     if mc_fixed["violated"]:
         raise tlc.TlcFailure("S(repaired) => P unexpectedly refuted: the P monitor or S is wrong\n" + mc_fixed["out"][-2000:])
     notes["design_S_implies_P"] = {
@@ -307,13 +309,13 @@ def run(ctx):
     # 2. resolution: TLC enumerates the cases, the real resolveConditions answers, TLC judges ---------------
     cases = wd + "/cases.ndjson"
     nvar = 16 if ctx.thorough else 4
-    gen = tlc.run("C13Resolve", "C13Resolve.cfg", env={"VF_GEN": cases, "VF_VARIANTS": nvar}, workers=2, tag="C13-gen")
+    gen = tlc.run("C13Resolve", "C13Resolve.cfg", env={"VF_GEN": cases, "VF_VARIANTS": nvar}, workers=2, tag="C13-gen" + _PID)
     cc = recs.read_ndjson(cases)
     with open(wd + "/cases.txt", "w") as f:
         for c in cc:
             f.write("%d %d %s %s %d %d\n" % (c["id"], c["msg"], "".join(c["kseq"]), c["ck"], c["cf"], c["var"]))
     recs.run_harness(ctx, exe, ["resolve", wd + "/cases.txt", wd + "/resolve.ndjson"])
-    rres, rbad = recs.judge(ctx, "C13Resolve", "C13Resolve.cfg", wd + "/resolve.ndjson", workers=4, tag="C13-resolve",
+    rres, rbad = recs.judge(ctx, "C13Resolve", "C13Resolve.cfg", wd + "/resolve.ndjson", workers=4, tag="C13-resolve" + _PID,
                             env={"VF_VARIANTS": nvar})
     rr = recs.read_ndjson(wd + "/resolve.ndjson")
     design = [v for v in rres["vf"] if len(v) > 1 and v[1] == "DESIGN"]
